@@ -29,10 +29,10 @@ Cells == {"parser", "cookies", "path", "msgs", "strip", "luastk", "lglobal", "ll
 
 \* page kinds (the harness has one concrete page per kind)
 Kinds == {"unclosedMarkup", "unclosedTable", "preTag", "manyCalls", "templateLoop", "sectionError",
-          "luaGlobal", "luaString", "luaStringMeta", "luaRequired", "luaRetained", "luaLoadData",
+          "luaGlobal", "luaString", "luaStringMeta", "luaRequired", "luaRetained", "luaLoadData", "luaLoadJson",
           "luaStripMarker", "luaError", "luaTimeout", "parseExpandAll", "otherContextWithExtTags", "extTagPage"}
 
-IsLua(k) == k \in {"luaGlobal", "luaString", "luaStringMeta", "luaRequired", "luaRetained", "luaLoadData",
+IsLua(k) == k \in {"luaGlobal", "luaString", "luaStringMeta", "luaRequired", "luaRetained", "luaLoadData", "luaLoadJson",
                    "luaStripMarker", "luaError", "luaTimeout"}
 IsParse(k) == k \in {"unclosedMarkup", "unclosedTable", "preTag", "parseExpandAll", "extTagPage"}
 
@@ -48,7 +48,7 @@ Reads(k) ==
     [] k = "luaStringMeta" -> {"cookies", "path", "msgs", "luastk", "lsmeta"}
     [] k = "luaRequired" -> {"cookies", "path", "msgs", "luastk", "lloaded", "memo"}
     [] k = "luaRetained" -> {"cookies", "path", "msgs", "luastk", "lretain"}
-    [] k = "luaLoadData" -> {"cookies", "path", "msgs", "luastk", "ldata", "memo"}
+    [] k \in {"luaLoadData", "luaLoadJson"} -> {"cookies", "path", "msgs", "luastk", "ldata", "memo"}
     [] k = "luaStripMarker" -> {"cookies", "path", "msgs", "luastk", "strip"}
     [] k \in {"luaError", "luaTimeout"} -> {"cookies", "path", "msgs", "luastk"}
     [] k = "otherContextWithExtTags" -> {}
@@ -63,7 +63,7 @@ Writes(k) ==
           [] k = "luaStringMeta" -> {"lsmeta"}
           [] k = "luaRequired" -> {"lloaded"}
           [] k = "luaRetained" -> {"lretain"}
-          [] k = "luaLoadData" -> {"ldata"}
+          [] k \in {"luaLoadData", "luaLoadJson"} -> {"ldata"}
           [] k = "luaStripMarker" -> {"strip"}
           [] k = "otherContextWithExtTags" -> IF "ExtensionTagsShared" \in Dev THEN {"tags"} ELSE {}
           [] OTHER -> {})
